@@ -155,6 +155,66 @@ pub fn fold_all(s: &mut Sem) -> u64 {
     n
 }
 
+/// A class the reader accepts and the writer refuses inside `Code`: `iconst_0; lookupswitch {5: L, 1: L, default: L}; L: return`
+/// with the keys out of order. `None` when the reader refuses it.
+fn poison_tree() -> Option<&'static duke::tree::class::ClassFile> {
+    static POISON: std::sync::OnceLock<Option<duke::tree::class::ClassFile>> = std::sync::OnceLock::new();
+    POISON
+        .get_or_init(|| {
+            fn u16b(v: &mut Vec<u8>, x: u16) {
+                v.extend_from_slice(&x.to_be_bytes());
+            }
+            fn u32b(v: &mut Vec<u8>, x: u32) {
+                v.extend_from_slice(&x.to_be_bytes());
+            }
+            fn utf8(v: &mut Vec<u8>, s: &str) {
+                v.push(1);
+                u16b(v, s.len() as u16);
+                v.extend_from_slice(s.as_bytes());
+            }
+            let mut b = vec![0xCA, 0xFE, 0xBA, 0xBE, 0, 0, 0, 52];
+            u16b(&mut b, 8); // constant_pool_count
+            utf8(&mut b, "Poison"); // 1
+            b.extend_from_slice(&[7, 0, 1]); // 2 Class #1
+            utf8(&mut b, "java/lang/Object"); // 3
+            b.extend_from_slice(&[7, 0, 3]); // 4 Class #3
+            utf8(&mut b, "m"); // 5
+            utf8(&mut b, "()V"); // 6
+            utf8(&mut b, "Code"); // 7
+            u16b(&mut b, 0x0021);
+            u16b(&mut b, 2);
+            u16b(&mut b, 4);
+            u16b(&mut b, 0); // interfaces
+            u16b(&mut b, 0); // fields
+            u16b(&mut b, 1); // methods
+            u16b(&mut b, 0x0009);
+            u16b(&mut b, 5);
+            u16b(&mut b, 6);
+            u16b(&mut b, 1);
+            let mut code = vec![0x03, 0xab, 0, 0];
+            u32b(&mut code, 27); // default -> offset 28
+            u32b(&mut code, 2);
+            u32b(&mut code, 5);
+            u32b(&mut code, 27);
+            u32b(&mut code, 1);
+            u32b(&mut code, 27);
+            code.push(0xb1);
+            let mut body = vec![];
+            u16b(&mut body, 1);
+            u16b(&mut body, 1);
+            u32b(&mut body, code.len() as u32);
+            body.extend_from_slice(&code);
+            u16b(&mut body, 0);
+            u16b(&mut body, 0);
+            u16b(&mut b, 7);
+            u32b(&mut b, body.len() as u32);
+            b.extend_from_slice(&body);
+            u16b(&mut b, 0); // class attributes
+            no_panic(|| duke::read_class(&mut std::io::Cursor::new(b))).ok().and_then(|r| r.ok())
+        })
+        .as_ref()
+}
+
 fn cfg_of(size: u8, features: u32) -> refclass::GenCfg {
     let base = match size {
         0 => refclass::GenCfg::small(),
@@ -430,6 +490,29 @@ impl Engine for C02 {
                 out.push(Violation::new("T0", "nondeterministic-output", "second-write", "two writes of one tree differ"));
             }
         }
+        // history independence on one thread: a write that FAILS inside an attribute body (the reader accepts a
+        // lookupswitch whose keys are not sorted, the writer refuses it) must leave nothing behind that changes the next
+        // write (missed seeded change C02-7: a pooled attribute buffer that is only cleared on success)
+        match poison_tree() {
+            Some(poison) => {
+                let mut junk = Vec::new();
+                match no_panic(|| duke::write_class(&mut junk, poison)) {
+                    Ok(Err(_)) => {
+                        st.probe("poison_write_failed_in_attribute_body");
+                        let mut after = Vec::new();
+                        match no_panic(|| duke::write_class(&mut after, &tree)) {
+                            Ok(Ok(())) if after == t0 => {}
+                            Ok(Ok(())) => out.push(Violation::new("T0", "residue-after-heal", "write-after-failed-write", format!("the same tree written after a write that failed inside an attribute body differs ({} vs {} bytes)", after.len(), t0.len()))),
+                            Ok(Err(e)) => out.push(Violation::new("T0", "residue-after-heal", "write-after-failed-write.result", format!("{e:#}"))),
+                            Err(pm) => out.push(Violation::new("T0", "panic", format!("write-after-failed-write:{}", panic_path(&pm)), pm)),
+                        }
+                    }
+                    Ok(Ok(())) => st.probe("poison_write_succeeded"),
+                    Err(pm) => out.push(Violation::new("T0", "panic", format!("poison-write:{}", panic_path(&pm)), pm)),
+                }
+            }
+            None => st.probe("poison_unavailable"),
+        }
         if t0.len() > bytes.len() {
             st.probe("output_longer_than_input");
         }
@@ -537,6 +620,6 @@ impl Engine for C02 {
         json!({"real": ["duke::write_class (simple_class_writer, pool, labels)", "duke::read_class (to obtain the tree)", "std write_all"], "stub": ["byte sink (SimWriter)"], "reference": ["refclass::parse / validate prefixes (independent parser)", "proj::project", "refclass encoder + generators for inputs"]})
     }
     fn expected_probes(&self) -> Vec<&'static str> {
-        vec!["write_ok", "corpus", "generated", "grow_ldc", "big.forward_goto", "big.forward_cond", "big.backward_goto", "big.backward_cond", "big.chain_goto", "big.switch_far", "big.many_constants", "big.big_locals", "big.near_limit", "trampoline_written", "write_err_under_fault", "io.short_transfers", "io.eintr"]
+        vec!["write_ok", "poison_write_failed_in_attribute_body", "corpus", "generated", "grow_ldc", "big.forward_goto", "big.forward_cond", "big.backward_goto", "big.backward_cond", "big.chain_goto", "big.switch_far", "big.many_constants", "big.big_locals", "big.near_limit", "trampoline_written", "write_err_under_fault", "io.short_transfers", "io.eintr"]
     }
 }
